@@ -660,6 +660,10 @@ func replayPlans(t *testing.T, prop string, check func(rt stat.Fataler, plan fPl
 		if err := json.Unmarshal(b, &plan); err != nil {
 			t.Fatalf("replay %s: %v", f, err)
 		}
-		check(t, plan)
+		// a plan fixes the timing of the calls and events, not the order of goroutines that become runnable at one
+		// virtual instant: run it a few times
+		for i := 0; i < 4; i++ {
+			check(t, plan)
+		}
 	}
 }
